@@ -283,7 +283,9 @@ Section Delivery.
     /\ (forall i, has_esi i (bd_shards d) = true -> has_esi i (bd_shards (fst r)) = true).
   Proof.
     intros [I1 I2 I3 I4 I5 I6 I7 I8 I9] Hc Hesi Hpay. destruct (I8 Hc) as [Hd Hlen].
-    unfold bd_push. rewrite Hc, I4, Hfec, Hd. cbn [negb].
+    unfold bd_push. rewrite Hc, I4. cbn [negb].
+    assert (Hlp : lenN_ payload <= ro_e oti) by (rewrite Hpay; unfold sym_bytes; rewrite lenN_take; fold e; lia).
+    destruct (N.ltb_spec (ro_e oti) (lenN_ payload)) as [G0|_]; [lia|]. rewrite Hfec, Hd.
     destruct (N.ltb_spec esi (bd_k d)) as [_|G]; [|lia]. cbn [andb]. rewrite andb_true_r.
     set (sh := if negb (has_esi esi (bd_shards d)) then bd_shards d ++ [(esi, payload)] else bd_shards d).
     assert (S1 : NoDup (map fst sh)).
